@@ -31,6 +31,12 @@ ETA = np.diag([1.0, -1.0, -1.0, -1.0])
 p = FourMomentumSymbol("p", shape=[])
 b, a, n = sp.symbols("b a n")
 _cache = {}
+COMPOUND = {"a+b": a + b, "a-b": a - b, "-a-b": -a - b, "a+pi/3": a + sp.pi / 3, "3*a": 3 * a, "2*a+b": 2 * a + b,
+            "a*b": a * b, "-a": -a, "a/2-b/3": a / 2 - b / 3, "2*a": 2 * a, "a+b+1": a + b + 1}
+COMPOUND_NUM = {"a+b": lambda x, y: x + y, "a-b": lambda x, y: x - y, "-a-b": lambda x, y: -x - y,
+                "a+pi/3": lambda x, y: x + np.pi / 3, "3*a": lambda x, y: 3 * x, "2*a+b": lambda x, y: 2 * x + y,
+                "a*b": lambda x, y: x * y, "-a": lambda x, y: -x, "a/2-b/3": lambda x, y: x / 2 - y / 3,
+                "2*a": lambda x, y: 2 * x, "a+b+1": lambda x, y: x + y + 1}
 
 
 def fn(kind, cse):
@@ -64,6 +70,11 @@ def fn(kind, cse):
             else:
                 mats = [BoostZMatrix(syms[c], n_events=n) for c in pattern]
             _cache[key] = sp.lambdify([a, b, n], MatrixMultiplication(*mats).doit(), "numpy", cse=cse)
+        elif isinstance(kind, tuple) and kind[0] == "compound":  # rotation whose angle argument is a compound expression
+            _, cls, form = kind
+            ang = COMPOUND[form]
+            klass = RotationYMatrix if cls == "roty" else RotationZMatrix
+            _cache[key] = sp.lambdify([a, b, n], klass(ang, n_events=n).doit(), "numpy", cse=cse)
         elif kind == "boost_explicit":  # the explicit symbolic matrix, entry by entry
             _cache[key] = sp.lambdify([p], list(BoostMatrix(p).as_explicit().doit()), "numpy", cse=cse)
         elif kind == "boostz_explicit":
@@ -219,6 +230,16 @@ def run_case(c):
             tol = 1e-9 * max(1.0, float(np.abs(ref).max()))
         if np.abs(M - ref).max() > tol:
             fails.append((f"matrix_product_{cls}_{pattern}", f"MatrixMultiplication over pattern {pattern} differs from the ordered matrix product by {np.abs(M - ref).max():.3g}"))
+    elif kind == "compound":
+        cls, form, a1, a2 = c["cls"], c["form"], c["a1"], c["a2"]
+        R = fn(("compound", cls, form), cse)(np.full(batch, a1), np.full(batch, a2), batch)
+        if R.shape != (batch, 4, 4):
+            return [("compound_shape", f"shape {R.shape}")]
+        R = R[0]
+        ref = ref_rot(cls, COMPOUND_NUM[form](a1, a2))
+        if np.abs(R - ref).max() > 1e-11:
+            fails.append((f"{cls}_compound_angle", f"{cls}({form}) at a={a1}, b={a2}: |R - textbook| = {np.abs(R - ref).max():.3g}"))
+        fails += lorentz_fails(R, cls + "_compound")
     else:
         a1, a2 = c["a1"], c["a2"]
         f = fn(kind, cse)
@@ -269,11 +290,16 @@ def gen_cases(seed, n_cases):
         elif k == 4 and rng.random() < 0.5:
             cls = rng.choice(["rotz", "roty", "boostz"])
             pattern = rng.choice(["aa", "ab", "ba", "aba", "abab", "aaa", "abba"])
+            if rng.random() < 0.5:  # long chains (five and more operands)
+                pattern = "".join(rng.choice("ab") for _ in range(rng.randint(5, 9)))
             if cls == "boostz":
                 v1, v2 = rng.uniform(-0.9, 0.9), rng.uniform(-0.9, 0.9)
             else:
                 v1, v2 = rng.uniform(-7, 7), rng.uniform(-7, 7)
             cases.append({"kind": "product", "cls": cls, "pattern": pattern, "cse": cse, "batch": batch, "a1": v1, "a2": v2})
+        elif k == 4 and rng.random() < 0.5:
+            cases.append({"kind": "compound", "cls": rng.choice(["roty", "rotz"]), "form": rng.choice(sorted(COMPOUND)),
+                          "cse": cse, "batch": batch, "a1": rng.uniform(-7, 7), "a2": rng.uniform(-7, 7)})
         else:
             cases.append({"kind": rng.choice(["roty", "rotz"]), "cse": cse, "batch": batch,
                           "a1": rng.choice([0.0, np.pi, -np.pi / 2, rng.uniform(-7, 7)]),
